@@ -54,6 +54,28 @@ type Clause struct {
 	Text  string
 	E     *Expr
 	Loop  int
+	// Using: when non-nil, the proof of this clause assumes, of the loop invariants of the
+	// function, only the ones with these labels (plus the clause itself for preservation)
+	Using []string
+}
+
+// splitUsing extracts an optional leading `uses [a, b, c]`.
+func splitUsing(s string) (using []string, rest string) {
+	s = strings.TrimSpace(s)
+	if !strings.HasPrefix(s, "uses [") {
+		return nil, s
+	}
+	j := strings.Index(s, "]")
+	if j < 0 {
+		return nil, s
+	}
+	using = []string{}
+	for _, l := range strings.Split(s[len("uses ["):j], ",") {
+		if l = strings.TrimSpace(l); l != "" {
+			using = append(using, l)
+		}
+	}
+	return using, strings.TrimSpace(s[j+1:])
 }
 
 type Let struct {
@@ -267,11 +289,12 @@ func parseContractText(path, pkgPath, text string) (*ContractFile, error) {
 				cur.Trusted = s
 			case "requires", "ensures", "use":
 				lab, etxt := splitLabel(rest)
+				using, etxt := splitUsing(etxt)
 				e, err := parseExpr(etxt)
 				if err != nil {
 					return nil, fail(err)
 				}
-				cl := &Clause{Kind: kw, Label: lab, Text: etxt, E: e}
+				cl := &Clause{Kind: kw, Label: lab, Text: etxt, E: e, Using: using}
 				switch kw {
 				case "requires":
 					cur.Requires = append(cur.Requires, cl)
@@ -323,11 +346,12 @@ func parseContractText(path, pkgPath, text string) (*ContractFile, error) {
 				r2 := strings.TrimSpace(strings.TrimPrefix(strings.TrimSpace(rest), f[0]))
 				kind, r3 := splitKeyword(r2)
 				lab, etxt := splitLabel(r3)
+				using, etxt := splitUsing(etxt)
 				e, err := parseExpr(etxt)
 				if err != nil {
 					return nil, fail(err)
 				}
-				cl := &Clause{Kind: kind, Label: lab, Text: etxt, E: e, Loop: k}
+				cl := &Clause{Kind: kind, Label: lab, Text: etxt, E: e, Loop: k, Using: using}
 				switch kind {
 				case "invariant":
 					cur.Invs = append(cur.Invs, cl)
